@@ -36,6 +36,8 @@ import (
 //	imp:<v>:<c>:<big|small>    voter v impeaches council member c
 //	prop:<P>:<c>               normal proposal P (3 budget stages) sponsored by council member c
 //	propbig:<P>:<c>            the same with a budget above 10 % of the committee's funds
+//	propneg:<P>:<c>:<i>        normal proposal whose stage at position i (0, 1, 2) is negative (total 10 ELA)
+//	propz:<P>:<c>              normal proposal with a zero middle stage
 //	propni:<P>:<c>             normal proposal without imprest (stages 1, 2, 3)
 //	propoo:<P>:<c>             normal proposal whose budgets are listed out of stage order
 //	elip:<P>:<c>               ELIP proposal (imprest + final)
@@ -129,6 +131,15 @@ func (w *World) propTx(kind, label, sponsor string, target string) (Tx, error) {
 		return ProposalNormal(label, payload.Normal, own, m, own.Addr, []payload.Budget{
 			{Type: payload.FinalPayment, Stage: 2, Amount: 30 * ELA}, {Type: payload.Imprest, Stage: 0, Amount: 10 * ELA},
 			{Type: payload.NormalPayment, Stage: 1, Amount: 20 * ELA}}), nil
+	case "propneg": // one stage (target: 0 imprest, 1 middle, 2 final) negative, total 10 ELA
+		amounts := [][3]common.Fixed64{{-5 * ELA, 10 * ELA, 5 * ELA}, {100 * ELA, -95 * ELA, 5 * ELA}, {100 * ELA, 5 * ELA, -95 * ELA}}
+		i, err := strconv.Atoi(target)
+		if err != nil || i < 0 || i > 2 {
+			return nil, fmt.Errorf("bad stage position %q", target)
+		}
+		return ProposalNormal(label, payload.Normal, own, m, own.Addr, Budget3(amounts[i][0], amounts[i][1], amounts[i][2])), nil
+	case "propz": // a zero middle stage (allowed by the node)
+		return ProposalNormal(label, payload.Normal, own, m, own.Addr, Budget3(10*ELA, 0, 30*ELA)), nil
 	case "propbig": // asks for more than a tenth of what the committee may spend in this term
 		a := (w.C.CRCCurrentStageAmount-w.C.CommitteeUsedAmount)/10 + ELA
 		return ProposalNormal(label, payload.Normal, own, m, own.Addr, Budget3(a/4, a/4, a/2)), nil
@@ -253,8 +264,14 @@ func (w *World) build(op string) ([]Tx, error) {
 			return nil, err
 		}
 		return []Tx{VoteTx(K(arg(1)), w.voteOut[arg(1)], outputpayload.CRCImpeachment, []CV{{K(arg(2)).CID.Bytes(), a}}, a, n)}, nil
-	case "prop", "elip", "sg", "propbig", "propni", "propoo":
+	case "prop", "elip", "sg", "propbig", "propni", "propoo", "propz":
 		tx, err := w.propTx(f[0], arg(1), arg(2), "")
+		if err != nil {
+			return nil, err
+		}
+		return []Tx{tx}, nil
+	case "propneg":
+		tx, err := w.propTx(f[0], arg(1), arg(2), arg(3))
 		if err != nil {
 			return nil, err
 		}
